@@ -225,6 +225,8 @@ def mk_field(v, name, an=None):
         if t == 'constref':
             v = v[1]
             continue
+        if t == 'ite':
+            return mk_ite(v[1], tuple((val, mk_field(x, name, an)) for val, x in v[2]))
         return ('field', v, name)
 
 
@@ -570,15 +572,23 @@ class _Pass:
         if d is None:
             return phi
         by_pred = dict(vals)
-        budget = [400]
+        budget = [20000]
+        memo = {}
 
         def tree(frm, to, depth):
             # value selected when control goes along edge frm -> to
-            budget[0] -= 1
-            if budget[0] < 0 or depth > 40:
-                return None
             if to == join:
                 return by_pred.get(frm)
+            if to in memo:
+                return memo[to]
+            r = tree1(frm, to, depth)
+            memo[to] = r
+            return r
+
+        def tree1(frm, to, depth):
+            budget[0] -= 1
+            if budget[0] < 0 or depth > 200:
+                return None
             if not self.cfg.dominates(d, to) or to == d:
                 return None
             t = self.body.blocks[to]['term']
@@ -606,8 +616,12 @@ class _Pass:
 
         t = self.body.blocks[d]['term']
         if t['k'] != 'switch':
-            # single successor chain from d
-            return phi
+            # single successor chain from d down to the deciding switch
+            succs = self.body.successors(d)
+            if len(succs) != 1:
+                return phi
+            e = tree(d, succs[0], 0)
+            return e if e is not None else phi
         cond = self._switch_cond.get(d)
         if cond is None:
             return phi
@@ -766,6 +780,8 @@ def norm(e):
     t = e[0]
     if t == 'constref':
         return norm(e[1])
+    if t == 'mem' and e[1][0] == 'h' and e[1][1][0] == 'str':
+        return e[1][1]
     if t == 'call':
         return ('call', e[1], tuple(norm(a) for a in e[2]), e[3])
     if t == 'after':
